@@ -4,8 +4,11 @@ package props
 
 import (
 	"bytes"
+	"encoding/json"
+	"fmt"
 	"math"
 	"reflect"
+	"strconv"
 	"strings"
 	"testing"
 
@@ -167,6 +170,17 @@ func checkC14(c CaseC14, info *Info) *Failure {
 		if jerr != nil {
 			return failf("json-fails-after-cast", "doc %q: Json() of the cast Map failed: %v", doc, jerr)
 		}
+		// ... and the JSON says what the cast Map says: a number where the leaf is a number (the very value), a boolean
+		// where it is a boolean, the identical string otherwise
+		var back interface{}
+		jd := json.NewDecoder(bytes.NewReader(jb))
+		jd.UseNumber()
+		if derr := jd.Decode(&back); derr != nil {
+			return failf("json-fails-after-cast", "doc %q: Json() of the cast Map is no JSON: %v: %s", doc, derr, jb)
+		}
+		if why := jsonAgrees(map[string]interface{}(cm), back, ""); why != "" {
+			return failf("json-disagrees-with-cast-map", "doc %q opts %+v\n cast Map %#v\n Json()   %s\n %s", doc, c.Opts, cm, jb, why)
+		}
 		js, werr := x2jw.DocToJson(string(doc), true)
 		if werr != nil || js != string(jb) {
 			return failf("wrapper-mismatch", "x2j-wrapper.DocToJson(%q,true) = %q,%v want %q", doc, js, werr, jb)
@@ -196,3 +210,68 @@ func checkC14(c CaseC14, info *Info) *Failure {
 }
 
 func TestC14(t *testing.T) { runProp(t, "C14", genC14, checkC14) }
+
+// jsonAgrees compares a cast Map with the JSON value its encoding decodes to (numbers kept as json.Number).
+func jsonAgrees(cv, jv interface{}, at string) string {
+	switch x := cv.(type) {
+	case map[string]interface{}:
+		y, ok := jv.(map[string]interface{})
+		if !ok || len(x) != len(y) {
+			return fmt.Sprintf("at %q: an object of %d members became %T", at, len(x), jv)
+		}
+		for k, v := range x {
+			w, ok := y[k]
+			if !ok {
+				return fmt.Sprintf("at %q: member %q is missing", at, k)
+			}
+			if why := jsonAgrees(v, w, at+"/"+k); why != "" {
+				return why
+			}
+		}
+	case []interface{}:
+		y, ok := jv.([]interface{})
+		if !ok || len(x) != len(y) {
+			return fmt.Sprintf("at %q: a list of %d became %T", at, len(x), jv)
+		}
+		for i := range x {
+			if why := jsonAgrees(x[i], y[i], fmt.Sprintf("%s/%d", at, i)); why != "" {
+				return why
+			}
+		}
+	case string:
+		if y, ok := jv.(string); !ok || y != x {
+			return fmt.Sprintf("at %q: the string %q became %#v", at, x, jv)
+		}
+	case bool:
+		if y, ok := jv.(bool); !ok || y != x {
+			return fmt.Sprintf("at %q: the boolean %v became %#v", at, x, jv)
+		}
+	case int64:
+		n, ok := jv.(json.Number)
+		if v, err := strconv.ParseInt(string(n), 10, 64); !ok || err != nil || v != x {
+			return fmt.Sprintf("at %q: the int64 %d became %#v", at, x, jv)
+		}
+	case int: // the sequence numbers of IncludeTagSeqNum
+		n, ok := jv.(json.Number)
+		if v, err := strconv.ParseInt(string(n), 10, 64); !ok || err != nil || v != int64(x) {
+			return fmt.Sprintf("at %q: the int %d became %#v", at, x, jv)
+		}
+	case uint64:
+		n, ok := jv.(json.Number)
+		if v, err := strconv.ParseUint(string(n), 10, 64); !ok || err != nil || v != x {
+			return fmt.Sprintf("at %q: the uint64 %d became %#v", at, x, jv)
+		}
+	case float64:
+		n, ok := jv.(json.Number)
+		if v, err := strconv.ParseFloat(string(n), 64); !ok || err != nil || v != x {
+			return fmt.Sprintf("at %q: the float64 %v became %#v", at, x, jv)
+		}
+	case nil:
+		if jv != nil {
+			return fmt.Sprintf("at %q: null became %#v", at, jv)
+		}
+	default:
+		return fmt.Sprintf("at %q: a leaf of type %T in a cast Map", at, cv)
+	}
+	return ""
+}
